@@ -473,6 +473,42 @@ pub fn sticky_check(c: &Sticky, st: &mut Stats) -> Check {
 }
 
 // ---------------------------------------------------------------------------------------
+// part 2c: a split signature survives any number of other connections opened in between
+
+#[derive(Clone, Debug, Serialize, Deserialize, PartialEq)]
+pub struct Pressure {
+    pub scn: Scenario,
+    pub others: u32,
+    pub cut: u8,
+}
+
+pub fn pressure_check(c: &Pressure, st: &mut Stats) -> Check {
+    Sut::reset();
+    st.eval();
+    let sut = Sut::new(&c.scn.cfg);
+    let net = &c.scn.net;
+    let stream: &[u8] = b"Gh0st\x16\x00\x00\x00\x01\x00\x00\x00x\x9c\x63\x00\x00\x00\x01\x00\x01";
+    let cut = 1 + (c.cut as usize % 4);
+    let a = Flow { net: net.clone(), sport: 61000, dport: 8000 };
+    let ka = learn_cookie(&sut, &a, 10).map_err(Failure::new)?;
+    let o1 = sut.frame(&a.data(11, ka.wrapping_add(1), &stream[..cut]));
+    vensure!(matches!(classify_seg_reply(&o1), SegReply::Ack), "first part of a split Gh0st packet got {:?}", classify_seg_reply(&o1));
+    for i in 0..c.others {
+        let f = Flow { net: net.clone(), sport: i as u16, dport: 3000u16.wrapping_add((i >> 16) as u16) };
+        let k = learn_cookie(&sut, &f, i).map_err(Failure::new)?;
+        let _ = sut.frame(&f.data(i.wrapping_add(1), k.wrapping_add(1), b"x"));
+    }
+    let o2 = sut.frame(&a.data(11 + cut as u32, ka.wrapping_add(1), &stream[cut..]));
+    st.frames(3 + 2 * c.others as u64);
+    st.class("pressure:split-signature-with-other-connections-in-between");
+    st.nontrivial(&(c.others, cut));
+    match classify_seg_reply(&o2) {
+        SegReply::Data(p) if classify_reply(&p, true) == Responder::Ghost => Ok(()),
+        other => vfail!("'{}' | {} other connections | rest of the Gh0st packet: the second part got {:?} instead of a Gh0st answer (the decision must not depend on other flows or on how the leading bytes are split)", String::from_utf8_lossy(&stream[..cut]), c.others, match other { SegReply::Data(p) => format!("Data({})", hex(&p[..p.len().min(24)])), o => format!("{:?}", o) }),
+    }
+}
+
+// ---------------------------------------------------------------------------------------
 // part 3: the decision is independent of the segmentation of the prefix, ports and addresses
 
 #[derive(Clone, Debug, Serialize, Deserialize, PartialEq)]
@@ -481,16 +517,25 @@ pub struct SegCase {
     pub sport: u16,
     pub dport: u16,
     pub prefix: Hex,
+    /// flags besides PSH|ACK on the LAST data segment of every split delivery (FIN, URG, ECE, ...:
+    /// a data segment is a data segment whatever else it carries)
+    #[serde(default)]
+    pub last_extra: u16,
 }
 
 fn peek_id(sut: &Sut, flow: &Flow, stream: &[u8], lens: &[usize]) -> Result<Option<usize>, String> {
+    peek_id_x(sut, flow, stream, lens, 0)
+}
+
+fn peek_id_x(sut: &Sut, flow: &Flow, stream: &[u8], lens: &[usize], last_extra: u16) -> Result<Option<usize>, String> {
     Sut::reset();
     let cookie = learn_cookie(sut, flow, 77)?;
     let mut seq = 78u32;
     let mut off = 0;
-    for l in lens {
+    for (i, l) in lens.iter().enumerate() {
         let end = (off + l).min(stream.len());
-        let o = sut.frame(&flow.data(seq, cookie.wrapping_add(1), &stream[off..end]));
+        let fl = if i + 1 == lens.len() { F_PSH | F_ACK | last_extra } else { F_PSH | F_ACK };
+        let o = sut.frame(&flow.seg(seq, cookie.wrapping_add(1), fl, &stream[off..end]));
         if let Out::Panic(p) = o {
             return Err(format!("panic {} {}", p.file, p.msg));
         }
@@ -526,11 +571,11 @@ pub fn seg_check(c: &SegCase, st: &mut Stats) -> Check {
     vensure!(norm(whole) == want_id.filter(|_| true) || (want_id.is_some() && r.protos.iter().any(|p| Some(hook_id(p.hook_name())) == norm(whole))), "unsplit delivery of {} identified as id {:?}, reference says {:?}", hex(s), whole, r.protos);
     let mut count = 0u64;
     for a in 1..n {
-        let got = peek_id(&sut, &flow, s, &[a, n - a]).map_err(Failure::new)?;
+        let got = peek_id_x(&sut, &flow, s, &[a, n - a], c.last_extra).map_err(Failure::new)?;
         count += 1;
         vensure!(norm(got) == norm(whole), "decision depends on segmentation: {} cut at {} -> id {:?}, unsplit -> id {:?}", hex(s), a, got, whole);
         for b in a + 1..n {
-            let got = peek_id(&sut, &flow, s, &[a, b - a, n - b]).map_err(Failure::new)?;
+            let got = peek_id_x(&sut, &flow, s, &[a, b - a, n - b], c.last_extra).map_err(Failure::new)?;
             count += 1;
             vensure!(norm(got) == norm(whole), "decision depends on segmentation: {} cut at {} and {} -> id {:?}, unsplit -> id {:?}", hex(s), a, b, got, whole);
         }
@@ -571,7 +616,7 @@ impl Prop for C10 {
         "C10"
     }
     fn rule(&self) -> &'static str {
-        "(1) exhaustive breadth-first exploration of the product of the reference signature automaton (17 published signatures transcribed as data: literals, ? wildcards, begin/end anchors) with the compiled matcher stepped one byte at a time through the hook, over ALL 256 byte values per step plus the end-of-input step at every product state; product state = (position, alive signature set, matcher row | pending matches, shadowing-excuse mask); oracle: the matcher reports a protocol exactly where a signature first completes (ties accept either). (2) end-to-end through reply(): complete valid requests from every protocol generator and payloads whose leading bytes complete no signature (constructed by walking the reference automaton), over UDP and over a handshaken TCP flow on random ports/addresses; the responder (classified by independent decoders) must be the completed signature's, or nobody (DNS fallback allowed for datagrams). (2b) over a handshaken TCP flow a complete request of one protocol followed, in later segments, by 1..3 complete requests of arbitrary other protocols: no segment of the flow is answered by a responder other than the one the stream's leading bytes selected. (3) for witness prefixes (every signature with random wildcard bytes, perturbed, extended) ALL 1- and 2-cut TCP segmentations and another port/address pair: the protocol id recorded in the control block equals the unsplit delivery's. Non-trivial = product states with a non-empty alive set / witnesses answered or rejected / prefixes that complete a signature; distinct by hash."
+        "(1) exhaustive breadth-first exploration of the product of the reference signature automaton (17 published signatures transcribed as data: literals, ? wildcards, begin/end anchors) with the compiled matcher stepped one byte at a time through the hook, over ALL 256 byte values per step plus the end-of-input step at every product state; product state = (position, alive signature set, matcher row | pending matches, shadowing-excuse mask); oracle: the matcher reports a protocol exactly where a signature first completes (ties accept either). (2) end-to-end through reply(): complete valid requests from every protocol generator and payloads whose leading bytes complete no signature (constructed by walking the reference automaton), over UDP and over a handshaken TCP flow on random ports/addresses; the responder (classified by independent decoders) must be the completed signature's, or nobody (DNS fallback allowed for datagrams). (2b) over a handshaken TCP flow a complete request of one protocol followed, in later segments, by 1..3 complete requests of arbitrary other protocols: no segment of the flow is answered by a responder other than the one the stream's leading bytes selected. (2c) a Gh0st packet split after 1..4 bytes with 66 000 (quick) / 140 000 (thorough) other connections opened and validated between the two parts: the second part must still get the Gh0st answer. (3) for witness prefixes (every signature with random wildcard bytes, perturbed, extended) ALL 1- and 2-cut TCP segmentations and another port/address pair: the protocol id recorded in the control block equals the unsplit delivery's. Non-trivial = product states with a non-empty alive set / witnesses answered or rejected / prefixes that complete a signature; distinct by hash."
     }
     fn run(&self, ctx: &mut RunCtx) {
         if ctx.worker == 0 {
@@ -608,8 +653,11 @@ impl Prop for C10 {
         ctx.run_generated("e2e", n, e2e_strategy(), e2e_check);
         let k = ctx.share(ctx.tier.n(150_000, 2_000_000));
         ctx.run_generated("sticky", k, sticky_strategy(), sticky_check);
+        let np = ctx.share(ctx.tier.n(2, 16));
+        let others = ctx.tier.n(66_000, 140_000) as u32;
+        ctx.run_generated("pressure", np, (scenario_quiet(Fam::Any), Just(others), any::<u8>()).prop_map(|(scn, others, cut)| Pressure { scn, others, cut }), pressure_check);
         let m = ctx.share(ctx.tier.n(4_000, 60_000));
-        ctx.run_generated("seg", m, (scenario_quiet(Fam::Any), port(), port(), prefix_strategy()).prop_map(|(scn, sport, dport, prefix)| SegCase { scn, sport, dport, prefix }), seg_check);
+        ctx.run_generated("seg", m, (scenario_quiet(Fam::Any), port(), port(), prefix_strategy(), prop_oneof![2 => Just(0u16), 2 => prop::sample::select(vec![F_FIN, F_URG, F_RST, F_ECE, F_CWR, F_NS, F_SYN, F_FIN | F_URG]), 1 => (0u16..512).prop_map(|f| f & !(F_PSH | F_ACK))]).prop_map(|(scn, sport, dport, prefix, last_extra)| SegCase { scn, sport, dport, prefix, last_extra }), seg_check);
     }
     fn replay(&self, stream: &str, case: &Value, st: &mut Stats) -> Check {
         let bad = |e: serde_json::Error| Failure::new(format!("bad case: {}", e));
@@ -626,6 +674,7 @@ impl Prop for C10 {
             }
             "seg" => seg_check(&serde_json::from_value(case.clone()).map_err(bad)?, st),
             "sticky" => sticky_check(&serde_json::from_value(case.clone()).map_err(bad)?, st),
+            "pressure" => pressure_check(&serde_json::from_value(case.clone()).map_err(bad)?, st),
             _ => e2e_check(&serde_json::from_value(case.clone()).map_err(bad)?, st),
         }
     }
